@@ -316,8 +316,7 @@ Qed.
 
 Lemma block_dels c s : dels (step c s OBlock) = dels s.
 Proof.
-  unfold step. destruct (run_op c OBlock s) as [[s' x]| |] eqn:E; auto.
-  cbn [run_op] in E. bstep E r Hr. destruct r as [[s1 ac] up]. inversion E; subst s' x; clear E.
+  unfold step. cbn [run_op]. destruct (sync_pos c (blk s + 1) (w_blk (blk s + 1) s)) as [[[s1 ac] up]| |] eqn:Hr; try reflexivity.
   destruct (ProofsEpoch.sync_pos_cases _ _ _ _ _ _ Hr) as [->|[t [Hc Ha]]]; [reflexivity|].
   rewrite (apply_epoch_transition_dels _ _ _ _ _ Ha). reflexivity.
 Qed.
@@ -335,7 +334,7 @@ Proof.
   intros [la [lq HF]]. destruct (run_op c o s) as [[s' x]| |] eqn:E.
   - destruct (answer_ok _ _ _ _ _ E) as [Ea Es]. rewrite Es.
     destruct o; cbn [paid_in paid_out]; rewrite ?Ea; cbn [fst snd N.eqb andb]; cbn [run_op] in E.
-    + (* block *) rewrite <- Es. destruct (block_step_Full c s la lq HF) as [_ [_ [_ [_ Hh]]]]. rewrite Hh. lia.
+    + (* block *) rewrite <- Es. destruct (block_step_Full c s la lq HF) as [_ [_ [_ [_ [Hh _]]]]]. rewrite Hh. lia.
     + bstep E u G. rewrite (add_validation_held _ _ _ _ _ _ _ _ E a). rewrite andb_true_r. lia.
     + bstep E u G. rewrite (increase_stake_held _ _ _ _ _ _ E a). rewrite andb_true_r. lia.
     + bstep E u G. rewrite (decrease_stake_held _ _ _ _ _ _ E a). lia.
@@ -447,4 +446,66 @@ Proof.
   revert s. induction ops as [|o t IH]; intros s HF; cbn [run fold_left total]; [lia|].
   pose proof (custody_step_deleg c s o id HF) as S1. pose proof (IH (step c s o) (step_FullInv c s o HF)) as S2.
   unfold run in S2. lia.
+Qed.
+
+(* ------------------------------------------------------------------ a second withdrawal pays nothing *)
+
+Lemma money_only_getv s s' : money_only s s' -> forall b, getv s' b = getv s b.
+Proof. intros [q [wd [cd [e [b ->]]]]]. reflexivity. Qed.
+Lemma money_only_blk s s' : money_only s s' -> blk s' = blk s.
+Proof. intros [q [wd [cd [e [b ->]]]]]. reflexivity. Qed.
+
+(* the record of the validation after a successful WithdrawStake: queued and withdrawable emptied, the cooldown bucket emptied
+   if it was due; a validation that was still queued is now Exit *)
+Lemma withdraw_stake_record c a e s s1 x s2 la lq v :
+  withdraw_stake c a e s = Ok (s1, x) -> pay_out x s1 = Ok s2 -> WF s la lq -> getv s a = Some v ->
+  blk s2 = blk s /\ exists v2, getv s2 a = Some v2 /\ v_endorser v2 = v_endorser v /\ v_exit v2 = v_exit v /\
+    v_queued v2 = 0 /\ v_withdrawable v2 = 0 /\
+    (if v_status v =? StatusQueued then v_status v2 = StatusExit /\ v_cooldown v2 = v_cooldown v
+     else v_status v2 = v_status v /\ v_cooldown v2 = if cooldown_ended c v (blk s) then 0 else v_cooldown v).
+Proof.
+  intros H Hpay Hwf Hv. unfold withdraw_stake in H.
+  bstep H v0 Hv0. apply get_or_revert_ok in Hv0. assert (v0 = v) by congruence. subst v0. bstep H u1 G1.
+  bstep H r Hr. destruct r as [[[sa wd] q] cd].
+  bstep H sb Hb. bstep H sc Hc. bstep H sd Hd. bstep H se He. bstep H t1 Ht1. bstep H tot Htot. bstep H u2 Hcb.
+  inversion H; subst s1 tot; clear H.
+  assert (M : money_only sb s2).
+  { eapply money_only_trans; [eapply (mo_cond _ (remove_withdrawable wd)); [apply mo_remove_withdrawable|exact Hc]|].
+    eapply money_only_trans; [eapply (mo_cond _ (remove_queued q)); [apply mo_remove_queued|exact Hd]|].
+    eapply money_only_trans; [eapply (mo_cond _ (remove_cooldown cd)); [apply mo_remove_cooldown|exact He]|].
+    eapply mo_pay_out; eauto. }
+  rewrite (money_only_blk _ _ M), (money_only_getv _ _ M). clear M Hc Hd He Hpay Hcb Ht1 Htot.
+  unfold svc_withdraw_stake in Hr. destruct (v_status v =? StatusQueued) eqn:Est.
+  - apply N.eqb_eq in Est. bstep Hr r1 Hrm. destruct r1 as [s1' e1]. inversion Hr; subst sa wd q cd; clear Hr.
+    set (v1 := set_status StatusExit (set_amounts (v_locked v) (v_punlock v) 0 (v_cooldown v) 0 (v_weight v) v)) in *.
+    assert (Hin : In a lq) by (apply (wf_st _ _ _ Hwf a v Hv); auto).
+    destruct (WF_remove false s la lq a v1 s1' e1 v Hwf Hrm Hv Hin eq_refl eq_refl eq_refl)
+      as [l1 [l2 [El [Hwf1 [Hlo [Hga [Hce [Hco Hsum]]]]]]]].
+    assert (M : money_only (set_agg a agg0 s1') sb).
+    { unfold aggs_exit in Hb. cbn [e_qdec] in Hb. destruct (0 <? a_pv (get_agg s1' a)).
+      - bstep Hb s1b Hq. eapply money_only_trans; [eapply mo_remove_queued; eauto|eapply mo_add_withdrawable; eauto].
+      - inversion Hb. apply money_only_refl. }
+    rewrite (money_only_blk _ _ M), (money_only_getv _ _ M).
+    split; [cbn; rewrite Hlo; reflexivity|]. exists e1. split; [exact Hga|]. inversion Hce. repeat split; auto.
+  - inversion Hr; subst sa wd q cd; clear Hr. inversion Hb; subst sb; clear Hb.
+    split; [reflexivity|]. eexists. split; [apply getv_setv_same|]. cbn. repeat split; auto.
+Qed.
+
+Theorem second_withdraw_pays_zero c a e s s1 x s2 s3 y la lq :
+  Full s la lq ->
+  withdraw_stake c a e s = Ok (s1, x) -> pay_out x s1 = Ok s2 -> withdraw_stake c a e s2 = Ok (s3, y) -> y = 0.
+Proof.
+  intros HF H1 Hp H2.
+  assert (Hv : exists v, getv s a = Some v).
+  { unfold withdraw_stake in H1. bstep H1 v Hv. apply get_or_revert_ok in Hv. eauto. }
+  destruct Hv as [v Hv].
+  destruct (withdraw_stake_record c a e s s1 x s2 la lq v H1 Hp (f_wf _ _ _ HF) Hv) as [Eb [v2 [Hv2 [Ee [Ex [Eq [Ew Est]]]]]]].
+  destruct (withdraw_stake_amount c a e s2 s3 y v2 H2 Hv2) as [Ey _]. rewrite Ey, Eq, Ew. cbn [N.add].
+  destruct (v_status v =? StatusQueued) eqn:Es.
+  - destruct Est as [Es2 Ec2]. apply N.eqb_eq in Es.
+    assert (C0 : v_cooldown v = 0) by (apply (j_cd _ (f_2 _ _ _ HF) a v Hv); rewrite Es; discriminate).
+    rewrite Ec2, C0. destruct (negb (v_status v2 =? StatusQueued) && cooldown_ended c v2 (blk s2)); reflexivity.
+  - destruct Est as [Es2 Ec2]. rewrite Es2, Es. cbn [negb andb].
+    unfold cooldown_ended in *. rewrite Ex, Eb. rewrite Ec2. destruct (v_exit v) as [eb|]; [|reflexivity].
+    destruct (eb + c_cooldown c <=? blk s); reflexivity.
 Qed.
